@@ -173,15 +173,47 @@ func c01StatusClass(c *Check) {
 		c.SawFunc(fi.Name())
 		r := c.CtxOf(fi)
 		n := 0
-		judge := func(pt Pt, pos token.Pos, rhs ast.Expr, what string) {
+		var judge func(pt Pt, pos token.Pos, rhs ast.Expr, what string)
+		judge = func(pt Pt, pos token.Pos, rhs ast.Expr, what string) {
 			n++
 			key := fi.Name() + ":" + what + itoa(n)
 			if cls, isConst := constClass(rhs); isConst {
 				c.Hold("R9", key, pos, cls == 4 || cls == 5, "the kept status gets the constant enhanced-code class "+itoa(int(cls))+": the failure report for the recipient cannot be written")
 				return
 			}
+			// a local that holds the default chosen earlier (`defaultCode := EnhancedCode{5,0,0}; if temp { defaultCode = … }`):
+			// judged by the definitions that reach this point
+			if id, isID := stripConv(rhs).(*ast.Ident); isID && what != "via" {
+				if v, isVar := info.Uses[id].(*types.Var); isVar && !v.IsField() && v.Parent() != pk.Types.Scope() {
+					if defs, ok := r.ReachingDefsDeep(v, pt, nil, 0); ok && len(defs) > 0 {
+						allConst := true
+						for _, d := range defs {
+							if _, isConst := constClass(d); !isConst {
+								allConst = false
+							}
+						}
+						if allConst {
+							n--
+							for _, d := range defs {
+								judge(pt, pos, d, "via")
+							}
+							return
+						}
+					}
+				}
+			}
 			src := exprStr(stripConv(rhs))
-			key = fi.Name() + ":" + what + ":" + src
+			// keyed by the kind of source (its type), not by the name a variable happens to have
+			srcT := ""
+			if t := info.TypeOf(stripConv(rhs)); t != nil {
+				srcT = types.TypeString(t, func(p *types.Package) string { return p.Name() })
+			}
+			if sel, isSel := stripConv(rhs).(*ast.SelectorExpr); isSel {
+				if t := info.TypeOf(sel.X); t != nil {
+					srcT = types.TypeString(t, func(p *types.Package) string { return p.Name() }) + "." + sel.Sel.Name
+				}
+			}
+			key = fi.Name() + ":" + what + ":" + srcT
 			guard := r.F.AvoidImplying(func(atom ast.Expr) (bool, bool) {
 				be, ok := ast.Unparen(atom).(*ast.BinaryExpr)
 				if !ok {
